@@ -19,6 +19,7 @@ import (
 	"path/filepath"
 	"runtime"
 	"strings"
+	"time"
 
 	tmproto "github.com/tendermint/tendermint/proto/tendermint/types"
 
@@ -45,7 +46,9 @@ type Trace struct {
 }
 
 func envInfo() map[string]string {
-	e := map[string]string{"GOMAXPROCS": fmt.Sprint(runtime.GOMAXPROCS(0)), "TMPDIR": os.TempDir(), "pid": fmt.Sprint(os.Getpid())}
+	zone, _ := time.Now().Zone()
+	e := map[string]string{"GOMAXPROCS": fmt.Sprint(runtime.GOMAXPROCS(0)), "TMPDIR": os.TempDir(), "pid": fmt.Sprint(os.Getpid()),
+		"TZ": os.Getenv("TZ"), "local_zone": zone, "HOME": os.Getenv("HOME"), "LANG": os.Getenv("LANG")}
 	d, err := ioutil.TempDir("", "c14probe")
 	if err != nil {
 		e["tmp_usable"] = "false"
